@@ -23,9 +23,11 @@ import (
 	"fmt"
 	"io"
 	"os"
+	"os/exec"
 	"runtime"
 	"runtime/pprof"
 	"sort"
+	"strconv"
 	"strings"
 	"sync"
 	"sync/atomic"
@@ -1073,7 +1075,75 @@ func caseSizeCli(c *cliCase) int {
 	return len(c.Cuts)*1000 + len(c.stream())*4 + rank
 }
 
+// racePassMain (the -race build of this check, run as a subprocess): honest STARTTLS upgrades of
+// the real client against the TLS peer, free-running, so that the race detector sees the client's
+// own goroutines (reader, capability refresh) around the switch of the connection. This is a
+// supplementary pass: crypto/tls cannot run under the controlled scheduler, so the schedules are
+// whatever the Go runtime does — reports are true positives, silence is not a proof.
+func racePassMain(n int) {
+	for i := 0; i < n; i++ {
+		for _, g := range []string{"ok", "ok-caps"} {
+			for _, okl := range []string{"ok", "ok-code"} {
+				c := &cliCase{Half: "client", Greeting: g, OKLine: okl, After: "tls"}
+				runCliCase(c, nil)
+			}
+		}
+	}
+}
+
+// starttlsRacePass runs the -race build of this check (VERIF_RACE_BIN) over n rounds of honest
+// upgrades and returns the distinct reports whose both sides are in the client.
+func starttlsRacePass(n int) []RaceReport {
+	bin := os.Getenv("VERIF_RACE_BIN")
+	if bin == "" {
+		fmt.Println("STARTTLS-RACE-ERROR no race build available")
+		os.Exit(2)
+	}
+	cmd := exec.Command(bin, "--tier", "quick")
+	cmd.Env = append(os.Environ(), fmt.Sprintf("C17_RACE_PASS=%d", n), "GORACE=halt_on_error=0", "C17_RACE_ONLY=")
+	var stderr bytes.Buffer
+	cmd.Stderr = &stderr
+	cmd.Stdout = io.Discard
+	done := make(chan error, 1)
+	go func() { done <- cmd.Run() }()
+	select {
+	case <-done:
+	case <-time.After(10 * time.Minute):
+		cmd.Process.Kill()
+		fmt.Println("STARTTLS-RACE-ERROR race pass did not finish within 10 minutes")
+		os.Exit(2)
+	}
+	seen := map[string]bool{}
+	var out []RaceReport
+	for _, r := range ParseRaceReports(stderr.String(), []string{"imapclient", "imapwire"}) {
+		if !r.Inner || seen[r.Key] {
+			continue
+		}
+		seen[r.Key] = true
+		out = append(out, r)
+	}
+	return out
+}
+
 func main() {
+	if n := os.Getenv("C17_RACE_PASS"); n != "" {
+		k, _ := strconv.Atoi(n)
+		racePassMain(k)
+		return
+	}
+	if os.Getenv("C17_RACE_ONLY") != "" {
+		// called by C13's check (property "no data race"): only the free-running race pass over honest
+		// upgrades, reports on stdout
+		n := 150
+		if strings.Contains(strings.Join(os.Args, " "), "thorough") {
+			n = 1500
+		}
+		for _, r := range starttlsRacePass(n) {
+			fmt.Printf("STARTTLS-RACE %s\t%s\n", r.Key, strings.ReplaceAll(r.Text, "\n", "\\n"))
+		}
+		fmt.Printf("STARTTLS-RACE-PASS upgrades=%d\n", n*4)
+		return
+	}
 	run = vk.Start("C17", "exploration")
 	if run.Replay != "" {
 		replay()
